@@ -132,7 +132,7 @@ Definition lex_tok (s : bytes) (pos start0 : nat) : lex_result :=
         match lookup_op1 op1_table c with
         | Some t => LexTok (simple t pos) l1
         | None =>
-          if (N.eqb c 39 || N.eqb c 34)%bool then lex_string c l1
+          if existsb (N.eqb c) quote_chars then lex_string c l1
           else LexErr pos l1
         end
       end
@@ -163,7 +163,7 @@ Lemma lex_tok_cons : forall c s' pos start0,
         match lookup_op1 op1_table c with
         | Some t => LexTok (simple t pos) (mkLexer s' (S pos) pos)
         | None =>
-          if (N.eqb c 39 || N.eqb c 34)%bool then lex_string c (mkLexer s' (S pos) pos)
+          if existsb (N.eqb c) quote_chars then lex_string c (mkLexer s' (S pos) pos)
           else LexErr pos (mkLexer s' (S pos) pos)
         end
       end.
@@ -649,4 +649,267 @@ Proof.
   eexists. eexists. split; [reflexivity|]. split.
   - simpl. apply (tok_of_matches [] k (tail_text ts)).
   - split; [|reflexivity]. simpl. exists (spell k). split; [reflexivity|lia].
+Qed.
+
+(* ================================================================= C13 statements *)
+
+Lemma skip_ws_none : forall s pos, ws_stop s = true -> skip_ws s pos = (s, pos).
+Proof.
+  intros s pos H. pose proof (skip_ws_run [] s pos eq_refl H) as E. simpl in E.
+  now rewrite Nat.add_0_r in E.
+Qed.
+
+(* white space in front of anything that is not white space is the same as starting later *)
+Lemma lex_next_skip : forall ws s pos st,
+  forallb is_hws ws = true -> ws_stop s = true ->
+  lex_next (mkLexer (ws ++ s) pos st) = lex_next (mkLexer s (pos + length ws) st).
+Proof.
+  intros ws s pos st Hws Hs. rewrite !lex_next_unfold. cbn [lrest lpos lstart].
+  rewrite skip_ws_run by auto. rewrite skip_ws_none by auto. reflexivity.
+Qed.
+
+(* a comment up to the line end is skipped like white space: the next token is the line end *)
+Lemma lex_next_comment : forall ws cmt s pos st,
+  forallb is_hws ws = true -> forallb (fun c => negb (N.eqb c 10)) cmt = true ->
+  lex_next (mkLexer (ws ++ 35%N :: cmt ++ 10%N :: s) pos st) =
+  lex_next (mkLexer (10%N :: s) (pos + length ws + 1 + length cmt) st).
+Proof.
+  intros ws cmt s pos st Hws Hc. rewrite !lex_next_unfold. cbn [lrest lpos lstart].
+  rewrite skip_ws_comment by auto. rewrite skip_ws_none by reflexivity. reflexivity.
+Qed.
+
+Lemma digit_ws_stop : forall c s, latin1_is_digit c = true -> ws_stop (c :: s) = true.
+Proof.
+  intros c s H. simpl. unfold latin1_is_digit, is_ascii_digit in H. unfold is_hws. lia.
+Qed.
+
+(* numbers: the token is exactly the digit run (with an optional .digits) *)
+Lemma number_never_absorbs_int : forall d1 r pos st,
+  d1 <> [] -> forallb latin1_is_digit d1 = true ->
+  stops_at latin1_is_digit r = true -> no_frac r = true ->
+  lex_next (mkLexer (d1 ++ r) pos st) =
+  LexTok (mkTok TNum pos (length d1)) (mkLexer r (pos + length d1) pos).
+Proof.
+  intros d1 r pos st Hne Hd Hr Hn. destruct d1 as [|c d]; [congruence|].
+  assert (Hc : latin1_is_digit c = true) by (simpl in Hd; apply andb_true_iff in Hd; tauto).
+  destruct (digit_facts c Hc) as [H10 [H36 _]].
+  rewrite lex_next_unfold. cbn [lrest lpos lstart]. simpl app.
+  rewrite skip_ws_none by (apply digit_ws_stop; exact Hc).
+  rewrite lex_tok_cons. rewrite H10, H36, Hc.
+  change (c :: d ++ r) with ((c :: d) ++ r). rewrite lex_number_int by auto.
+  tok_eq.
+Qed.
+
+Lemma number_never_absorbs_frac : forall d1 d2 r pos st,
+  d1 <> [] -> forallb latin1_is_digit d1 = true ->
+  d2 <> [] -> forallb latin1_is_digit d2 = true ->
+  stops_at latin1_is_digit r = true ->
+  lex_next (mkLexer (d1 ++ 46%N :: d2 ++ r) pos st) =
+  LexTok (mkTok TNum pos (length d1 + 1 + length d2))
+         (mkLexer r (pos + length d1 + 1 + length d2) pos).
+Proof.
+  intros d1 d2 r pos st Hne1 Hd1 Hne2 Hd2 Hr. destruct d1 as [|c d]; [congruence|].
+  assert (Hc : latin1_is_digit c = true) by (simpl in Hd1; apply andb_true_iff in Hd1; tauto).
+  destruct (digit_facts c Hc) as [H10 [H36 _]].
+  rewrite lex_next_unfold. cbn [lrest lpos lstart]. simpl app.
+  rewrite skip_ws_none by (apply digit_ws_stop; exact Hc).
+  rewrite lex_tok_cons. rewrite H10, H36, Hc.
+  change (c :: d ++ 46%N :: d2 ++ r) with ((c :: d) ++ 46%N :: d2 ++ r).
+  rewrite lex_number_frac by auto.
+  tok_eq.
+Qed.
+
+(* the three situations named in C13: digits followed by '-', by '+', by '.x' with x no digit *)
+Lemma number_never_absorbs : forall d1 c r pos st,
+  d1 <> [] -> forallb latin1_is_digit d1 = true ->
+  (c = 45%N \/ c = 43%N \/ (c = 46%N /\ stops_at latin1_is_digit r = true)) ->
+  lex_next (mkLexer (d1 ++ c :: r) pos st) =
+  LexTok (mkTok TNum pos (length d1)) (mkLexer (c :: r) (pos + length d1) pos).
+Proof.
+  intros d1 c r pos st Hne Hd Hc. apply number_never_absorbs_int; auto.
+  - destruct Hc as [->|[->|[-> _]]]; reflexivity.
+  - destruct Hc as [->|[->|[-> Hr]]]; destruct r as [|x r']; try reflexivity.
+    simpl in Hr. simpl. now rewrite Hr.
+Qed.
+
+(* keywords *)
+Lemma keyword_lookup_iff : forall w tg,
+  lookup_kw keyword_table w = Some tg <-> In (w, tg) keyword_table.
+Proof.
+  intros w tg. split; [apply lookup_kw_sound|].
+  intro H. unfold keyword_table in H. simpl in H.
+  repeat (destruct H as [H|H]; [inversion H; subst; reflexivity|]). contradiction.
+Qed.
+
+Lemma ident_start_ws_stop : forall c s, is_ident_start c = true -> ws_stop (c :: s) = true.
+Proof.
+  intros c s H. simpl.
+  unfold is_ident_start, latin1_is_letter, is_ascii_upper, is_ascii_lower in H. unfold is_hws. lia.
+Qed.
+
+(* an identifier run is a keyword token iff the whole run is a keyword *)
+Lemma keyword_whole_word : forall c r tl pos st,
+  is_ident_start c = true -> forallb ident_char r = true -> stops_at ident_char tl = true ->
+  lex_next (mkLexer ((c :: r) ++ tl) pos st) =
+  LexTok (match lookup_kw keyword_table (c :: r) with
+          | Some tg => mkTok tg pos 0
+          | None => mkTok TIdent pos (length (c :: r))
+          end)
+         (mkLexer tl (pos + length (c :: r)) pos).
+Proof.
+  intros c r tl pos st Hc Hr Htl.
+  rewrite lex_next_unfold. cbn [lrest lpos lstart].
+  rewrite skip_ws_none by (simpl app; apply ident_start_ws_stop; exact Hc).
+  rewrite lex_tok_word by auto. unfold word_result. simpl app.
+  destruct (lookup_kw keyword_table (c :: r)); [reflexivity|].
+  tok_eq.
+Qed.
+
+(* the two quote characters are interchangeable *)
+Lemma quote_ws_stop : forall q s, (q = 34%N \/ q = 39%N) -> ws_stop (q :: s) = true.
+Proof. intros q s [->| ->]; reflexivity. Qed.
+
+Lemma lex_next_string : forall q s tl pos st,
+  (q = 34%N \/ q = 39%N) -> forallb (fun c => negb (N.eqb c q)) s = true ->
+  lex_next (mkLexer (q :: s ++ q :: tl) pos st) =
+  LexTok (mkTok TStr (S pos) (length s)) (mkLexer tl (S pos + length s + 1) (S pos)).
+Proof.
+  intros q s tl pos st Hq Hs. rewrite lex_next_unfold. cbn [lrest lpos lstart].
+  rewrite skip_ws_none by (apply quote_ws_stop; exact Hq).
+  apply lex_tok_string; auto.
+Qed.
+
+Lemma quotes_interchangeable : forall s tl pos st,
+  forallb (fun c => negb (N.eqb c 34 || N.eqb c 39)) s = true ->
+  lex_next (mkLexer (39%N :: s ++ 39%N :: tl) pos st) =
+  lex_next (mkLexer (34%N :: s ++ 34%N :: tl) pos st).
+Proof.
+  intros s tl pos st H.
+  rewrite !lex_next_string; auto.
+  - rewrite forallb_forall in *. intros x Hx. specialize (H x Hx).
+    apply negb_true_iff in H. apply orb_false_iff in H. destruct H as [H _]. now rewrite H.
+  - rewrite forallb_forall in *. intros x Hx. specialize (H x Hx).
+    apply negb_true_iff in H. apply orb_false_iff in H. destruct H as [_ H]. now rewrite H.
+Qed.
+
+(* white space in front of a token changes only its position *)
+Definition shift_tok (n : nat) (t : token) : token := mkTok (ttag t) (tpos t + n) (tlen t).
+
+Lemma tok_of_shift : forall k pos n, tok_of k (pos + n) = shift_tok n (tok_of k pos).
+Proof. intros [s|s|s|t] pos n; reflexivity. Qed.
+
+Lemma ws_insensitive : forall ws k tl pos st,
+  forallb is_hws ws = true -> wf_tok k = true -> sep_ok tl = true ->
+  exists t l1 l2,
+    lex_next (mkLexer (spell k ++ tl) pos st) = LexTok t l1 /\
+    lex_next (mkLexer (ws ++ spell k ++ tl) pos st) = LexTok (shift_tok (length ws) t) l2 /\
+    ttag t = stag k /\ lrest l1 = tl /\ lrest l2 = tl /\ lpos l2 = lpos l1 + length ws.
+Proof.
+  intros ws k tl pos st Hws Hk Htl.
+  pose proof (lex_next_ws (mkLexer (spell k ++ tl) pos st) [] k tl eq_refl eq_refl Hk Htl) as E1.
+  pose proof (lex_next_ws (mkLexer (ws ++ spell k ++ tl) pos st) ws k tl eq_refl Hws Hk Htl) as E2.
+  cbn [lpos length] in E1, E2. rewrite Nat.add_0_r in E1.
+  eexists. eexists. eexists. split; [exact E1|]. split; [rewrite E2, tok_of_shift; reflexivity|].
+  cbn [lrest lpos]. repeat split.
+  - destruct k; reflexivity.
+  - unfold byte, bytes. lia.
+Qed.
+
+(* ---- a whole token list under an arbitrary horizontal layout *)
+
+(* (white space, token) pairs, then trailing white space *)
+Fixpoint lay (items : list (bytes * stoken)) (trail : bytes) : bytes :=
+  match items with
+  | [] => trail
+  | (ws, k) :: r => ws ++ spell k ++ lay r trail
+  end.
+
+(* every gap is horizontal white space; only the first may be empty *)
+Fixpoint gaps_ok (first : bool) (items : list (bytes * stoken)) : bool :=
+  match items with
+  | [] => true
+  | (ws, k) :: r =>
+    forallb is_hws ws && (first || match ws with [] => false | _ => true end) && wf_tok k && gaps_ok false r
+  end.
+
+Lemma lay_sep : forall items trail,
+  gaps_ok false items = true -> forallb is_hws trail = true -> sep_ok (lay items trail) = true.
+Proof.
+  intros [|[ws k] r] trail H Ht.
+  - simpl. destruct trail as [|c t]; [reflexivity|]. simpl in *.
+    apply andb_true_iff in Ht. destruct Ht as [Ht _]. unfold is_sep. now rewrite Ht.
+  - simpl in H. repeat (apply andb_true_iff in H; destruct H as [H ?]).
+    destruct ws as [|c ws]; [discriminate|]. simpl. simpl in H.
+    apply andb_true_iff in H. destruct H as [H _]. unfold is_sep. now rewrite H.
+Qed.
+
+Lemma lex_next_trail : forall trail pos st,
+  forallb is_hws trail = true ->
+  lex_next (mkLexer trail pos st) = LexTok (simple TEOF st) (mkLexer [] (pos + length trail) st).
+Proof.
+  intros trail pos st H. rewrite lex_next_unfold. cbn [lrest lpos lstart].
+  rewrite <- (app_nil_r trail) at 1. rewrite skip_ws_run by auto. reflexivity.
+Qed.
+
+Lemma lex_all_layout_gen : forall items trail first pre pos st fuel,
+  gaps_ok first items = true -> forallb is_hws trail = true ->
+  length pre = pos -> length items < fuel ->
+  exists toks eof,
+    lex_all_fuel fuel (mkLexer (lay items trail) pos st) = (toks ++ [eof], None) /\
+    ttag eof = TEOF /\
+    Forall2 (tok_matches (pre ++ lay items trail)) toks (map snd items).
+Proof.
+  induction items as [|[ws k] r IH]; intros trail first pre pos st fuel Hg Ht Hpre Hf.
+  - destruct fuel as [|f]; [simpl in Hf; lia|].
+    exists [], (simple TEOF st). simpl lay. cbn [lex_all_fuel].
+    rewrite lex_next_trail by auto. cbn [ttag simple]. repeat split. constructor.
+  - destruct fuel as [|f]; [simpl in Hf; lia|]. simpl in Hf.
+    cbn [gaps_ok] in Hg. repeat (apply andb_true_iff in Hg; destruct Hg as [Hg ?]).
+    rename H into Hr, H0 into Hk, H1 into Hne, Hg into Hws.
+    cbn [lay].
+    pose proof (lex_next_ws (mkLexer (ws ++ spell k ++ lay r trail) pos st) ws k (lay r trail)
+                  eq_refl Hws Hk (lay_sep r trail Hr Ht)) as E.
+    cbn [lpos] in E.
+    destruct (IH trail false (pre ++ ws ++ spell k) (length (spell k) + (pos + length ws))
+                (start_of k (pos + length ws)) f Hr Ht) as [toks [eof [El [He Hm]]]].
+    { rewrite !app_length. lia. }
+    { lia. }
+    exists (tok_of k (pos + length ws) :: toks), eof.
+    cbn [lex_all_fuel]. rewrite E.
+    assert (Hnt : ttag (tok_of k (pos + length ws)) <> TEOF).
+    { replace (ttag (tok_of k (pos + length ws))) with (stag k) by (destruct k; reflexivity).
+      now apply wf_tok_not_eof. }
+    destruct (ttag (tok_of k (pos + length ws))) eqn:Etag; try congruence;
+      rewrite El; (split; [reflexivity|]; split; [exact He|]);
+      (cbn [map snd]; constructor;
+       [ replace (pre ++ ws ++ spell k ++ lay r trail) with ((pre ++ ws) ++ spell k ++ lay r trail)
+           by (rewrite <- app_assoc; reflexivity);
+         replace (pos + length ws) with (length (pre ++ ws)) by (rewrite app_length; lia);
+         apply tok_of_matches
+       | replace (pre ++ ws ++ spell k ++ lay r trail) with ((pre ++ ws ++ spell k) ++ lay r trail)
+           by (rewrite <- !app_assoc; reflexivity);
+         exact Hm ]).
+Qed.
+
+(* C13: any horizontal layout of a token list lexes to the same tags and texts *)
+Lemma lex_render_layout : forall items trail,
+  gaps_ok true items = true -> forallb is_hws trail = true ->
+  exists toks eof,
+    lex_all (lay items trail) = (toks ++ [eof], None) /\ ttag eof = TEOF /\
+    Forall2 (tok_matches (lay items trail)) toks (map snd items).
+Proof.
+  intros items trail Hg Ht. unfold lex_all, new_lexer.
+  apply (lex_all_layout_gen items trail true [] 0 0); auto.
+  assert (L : forall its first, gaps_ok first its = true -> length its <= length (lay its trail)).
+  { induction its as [|[ws k] r IH]; intros first H; [simpl; lia|].
+    cbn [gaps_ok] in H. repeat (apply andb_true_iff in H; destruct H as [H ?]).
+    cbn [lay length]. rewrite !app_length. specialize (IH false H0).
+    assert (1 <= length (spell k)).
+    { destruct k as [s|s|s|t]; simpl in *.
+      - unfold wf_num in H1. destruct s; [discriminate|simpl; lia].
+      - destruct s; [discriminate|simpl; lia].
+      - lia.
+      - destruct (fix_spell t); [discriminate|simpl; lia]. }
+    lia. }
+  specialize (L items true Hg). lia.
 Qed.
